@@ -104,6 +104,9 @@ def run(ctx):
             if op == "sidesCompatible":
                 c04_guard.compare(ctx, replay, payload, out)
                 continue
+            if op == "aroundGuards":
+                c04_guard.compare_around(ctx, replay, payload, out)
+                continue
             info, doc, res_doc, impl_ok = payload
             if "ok" not in out:
                 if impl_ok:
